@@ -457,3 +457,34 @@ func c09RealScenario(tag string) {
 
 func Verif_C09_RealServer_RewriteAndRestart() { c09RealScenario("C09.real_server") }
 func Verif_C02_RealServer_RewriteAndRestart() { c09RealScenario("C02.real_server") }
+
+// c09RealRewriteFirst: a rewrite as the very first thing a process does with its log - on a fresh data
+// directory, or right after a restart that restored earlier writes - followed by acknowledged writes and
+// another restart: the writes made after that rewrite are served.
+func c09RealRewriteFirst(tag string) {
+	dir := vr.FSReset()
+	dbs := []int{0, 5}
+	db := dbs[vr.Choose("db", 2)]
+	if vr.Choose("earlier_lifetime", 2) == 1 {
+		s0 := c09RealServer(dir, false)
+		_ = s0.SelectDB(db)
+		c05Run(s0, "SET", "k1", "old")
+		c05Run(s0, "SET", "k0", "kept")
+	}
+	s := c09RealServer(dir, true)
+	vr.Assert(c05Run(s, "REWRITEAOF") == "+OK\r\n", tag+".rewrite_replies_ok")
+	_ = s.SelectDB(db)
+	c05Run(s, "SET", "k1", "new")
+	c05Run(s, "SET", "k2", "v2")
+	if vr.Choose("other_db_too", 2) == 1 {
+		_ = s.SelectDB(0)
+		c05Run(s, "SET", "k3", "v3")
+	}
+	want := c07View(s, dbs, "k0", "k1", "k2", "k3")
+	s2 := c09RealServer(dir, true)
+	vr.Assert(c07View(s2, dbs, "k0", "k1", "k2", "k3") == want, tag+".restart_serves_the_acknowledged_dataset")
+	vr.Reach("end")
+}
+
+func Verif_C09_RealServer_RewriteFirst() { c09RealRewriteFirst("C09.real_server_rewrite_first") }
+func Verif_C02_RealServer_RewriteFirst() { c09RealRewriteFirst("C02.real_server_rewrite_first") }
